@@ -110,8 +110,10 @@ func c9E2E(r *Rng) {
 	U := c9UserHeaders(r)
 	cidArg := c9Cid(r)
 	d, _ := c9Timeout(r)
-	if d <= 0 {
-		d = time.Duration(1+r.Intn(100000)) * time.Millisecond // Call runs under context.WithTimeout(Timeout())
+	if d < time.Minute {
+		// Call and Process run under context.WithTimeout(Timeout()): keep the deadline far away so that a
+		// loaded machine cannot make the call itself time out (small timeouts go through the FProtocol path)
+		d = time.Minute + time.Duration(r.Intn(100000))*time.Millisecond
 	}
 	R := genHeaders(r, true)
 	delete(R, "_opid")
